@@ -3,5 +3,7 @@ EXTENDS Adaptive, Json
 MCCfgSet == {cf \in [min : {1, 2}, initial : {1, 2, 3}, max : {2, 3}] : cf.min <= cf.max}
 MCOuts == {"ok", "e1", "panic"}
 Inv == NeverOverLimitAtAdmission /\ ZeroWhenIdle /\ LimitInBounds
+\* transition tour: every transition of the (small) model, printed with the level of its source state
+TourDump == PrintT(<<"EDGE", TLCGet("level"), ToJson([f |-> view, t |-> view', cfg |-> cfg, ev |-> ev'])>>)
 GenPrint == PrintT(<<"GEN", TLCGet("level"), ToJson([cfg |-> cfg, ev |-> ev])>>)
 =============================================================================
